@@ -182,7 +182,11 @@ class Action:
         assert event.action_uid is not None
         for name in cls._event_name_map:
             if name in event.name:
-                action = Action(event.name.replace(name, ""), {})
+                action_name = event.name.replace(name, "")
+                if name == "Updated" and "Action" in action_name:
+                    # `<Action><Parameter>Updated`: the name of the action ends with 'Action'
+                    action_name = action_name[: action_name.rindex("Action") + 6]
+                action = Action(action_name, {})
                 action.uid = event.action_uid
                 action.status = (
                     ActionStatus.STARTED
